@@ -29,7 +29,7 @@ G = ["g2", "g1"]
 H = ["hd", "h b", "ha", "h[c]"]  # a level with a space and one with brackets
 K = [10, -2, 9]  # string order differs from numeric order
 YC = ["u", "w", "v"]
-VARIANTS = ["str", "cat-ord", "ord-cat", "unused", "num-dtypes", "big", "falsy", "small-ints", "tiny"]
+VARIANTS = ["str", "cat-ord", "ord-cat", "unused", "num-dtypes", "big", "falsy", "small-ints", "tiny", "near-dup"]
 _FR = {}
 
 
@@ -89,6 +89,12 @@ def frame(n, variant, rot):
         df["z"] = (df["z"] * 10).round().astype("int8")
         df["y"] = (df["y"] > 0)
         df["k"] = df["k"].astype("int16")
+    elif variant == "near-dup":  # level names that differ only in case or in surrounding blanks are different levels
+        df["f"] = [{"fb": "fa ", "fc": "Fa", "fa": "fa"}[v] for v in df["f"]]
+        df["g"] = [{"g2": "g1 ", "g1": "g1"}[v] for v in df["g"]]
+        df["h"] = [{"hd": " ha", "h b": "ha", "ha": "HA", "h[c]": "ha  "}[v] for v in df["h"]]
+        for c_ in ("f", "g", "h"):
+            order[c_] = sorted(set(df[c_]))
     elif variant == "small-ints":  # 8-bit integer columns whose products do not fit in 8 bits
         df["x"] = np.array([(37 * i + 5 * rot) % 120 - 20 for i in range(n)], dtype="int8")
         df["z"] = np.array([(11 * i + rot) % 50 + 3 for i in range(n)], dtype="int8")
@@ -398,7 +404,7 @@ def check_case(case, acc):
     c = case["f"]
     df, order = frame(case["n"], case["variant"], case["rot"])
     f = formula_of(c)
-    if case["variant"] in ("unused", "big", "falsy") and "T(f" in f:
+    if case["variant"] in ("unused", "big", "falsy", "near-dup") and "T(f" in f:
         acc.case([f, case["n"], case["variant"], case["rot"]], "not-encodable")  # C()/T() of an ordered column declaring an unobserved level is refused
         return
     acc.calls += 1
